@@ -271,6 +271,7 @@ pub fn c04_schedule(seed: u64, index: u64, rep: &mut Report, free: bool) {
         sched::run_free(threads, rng.next());
         free_stats()
     } else {
+        install_stall_hook("c04", seed, index);
         sched::run(threads, rng.next(), policy, 400_000)
     };
     // Oracle: every submission reached the kernel exactly once, unmodified.
@@ -612,6 +613,7 @@ pub fn c08_release_schedule(seed: u64, index: u64, rep: &mut Report, free: bool)
             sched::run_free(threads, rng.next());
             free_stats()
         } else {
+            install_stall_hook("c08mt", seed, index);
             sched::run(threads, rng.next(), policy, 200_000)
         };
         total_switches += stats.switches;
@@ -654,6 +656,11 @@ pub fn c11_schedule(seed: u64, index: u64, rep: &mut Report, free: bool) {
     let nwakers = 1 + rng.below(3) as usize;
     let sq_size = *rng.pick(&[1u32, 2, 8]);
     let fill_queue = ring_type != "single-issuer" && rng.chance(1, 3);
+    // S4: the first poll finds completions ready (it never blocks) and the wake() calls are made
+    // once that poll is running: the *next* poll has to return.
+    let busy = index % 5 == 4;
+    let family = if busy { "S4-wake-during-busy-poll" } else { family };
+    let fill_queue = fill_queue && !busy;
     simk::reset(seed ^ index);
     alloc::CONSUMER_PHASE_HOLDS.store(false, Ordering::SeqCst);
     {
@@ -691,7 +698,26 @@ pub fn c11_schedule(seed: u64, index: u64, rep: &mut Report, free: bool) {
             parked.push(op);
         }
     }
-    let polls_wanted: u64 = if family == "S3-poll-loop" { 2 + rng.below(3) } else { 1 };
+    if busy {
+        let (waker, _) = new_waker();
+        let mut cx = Context::from_waker(&waker);
+        for j in 0..1 + (index / 5) % 2 {
+            let mut op = alloc::a10(|| fut_op(afd.read(Vec::with_capacity(8)).from(700 + j), |r: std::io::Result<Vec<u8>>| match r {
+                Ok(v) => Outcome::ok(v.len() as i64),
+                Err(e) => Outcome::err(&e),
+            }));
+            let _ = alloc::a10(|| op.poll(&mut cx));
+            parked.push(op);
+        }
+        // Hand them to the kernel and let it complete them: the completions wait in the queue.
+        let _ = alloc::consumer(|| ring.poll(Some(Duration::ZERO)));
+        let mut k = simk::k();
+        for id in k.inflight_of(ring_fd) {
+            effects::complete(&mut k, id, 3, false);
+        }
+    }
+    sched::mark_reset();
+    let polls_wanted: u64 = if busy { 2 } else if family == "S3-poll-loop" { 2 + rng.below(3) } else { 1 };
     let polls_done = Arc::new(AtomicU64::new(0));
     let users_done = Arc::new(AtomicUsize::new(0));
     let mut n_users = 1;
@@ -706,9 +732,11 @@ pub fn c11_schedule(seed: u64, index: u64, rep: &mut Report, free: bool) {
         let polls_done = polls_done.clone();
         let users_done_ring = users_done.clone();
         threads.push(Box::new(move || {
-            for _ in 0..polls_wanted {
+            for p in 0..polls_wanted {
                 sched::point(sched::P_API);
+                sched::mark_thread(busy && p == 0);
                 let _ = alloc::consumer(|| ring.poll(None));
+                sched::mark_thread(false);
                 polls_done.fetch_add(1, Ordering::SeqCst);
             }
             // Completions for the parked operations are irrelevant here.
@@ -723,6 +751,11 @@ pub fn c11_schedule(seed: u64, index: u64, rep: &mut Report, free: bool) {
             let users_done = users_done.clone();
             n_users += 1;
             threads.push(Box::new(move || {
+                if busy {
+                    // Only once the first poll is really running (or over).
+                    let pd = polls_done.clone();
+                    let _ = sched::wait_until(move || sched::mark_seen() || pd.load(Ordering::SeqCst) >= 1);
+                }
                 let my_wakes: Vec<u64> = if family == "S3-poll-loop" {
                     // Wake i+1 is only issued after poll i returned.
                     (0..polls_wanted).filter(|i| (*i as usize) % nwakers == w).collect()
@@ -764,6 +797,7 @@ pub fn c11_schedule(seed: u64, index: u64, rep: &mut Report, free: bool) {
         sched::run_free(threads, rng.next());
         free_stats()
     } else {
+        install_stall_hook(if free { "c11free" } else { "c11" }, seed, index);
         sched::run(threads, rng.next(), policy, 40_000)
     };
     // A poll that could never return is a lost wake-up.
@@ -815,6 +849,38 @@ pub fn c11_schedule(seed: u64, index: u64, rep: &mut Report, free: bool) {
     finish(rep, if free { "c11free" } else { "c11" }, seed, index, &shared, sig, free || stats.switches >= 1 || family == "S2-wake-before-poll", format!("{family} ring={ring_type} wakers={nwakers} sq={sq_size} queue-full={fill_queue} polls={polls_wanted} switches={} kernel-blocks={}", stats.switches, stats.kernel_blocks));
 }
 
+/// A premature free shows up natively as a thread spinning for ever on a lock that lives in
+/// freed (quarantined, poisoned) memory. Report what the monitors know when that happens.
+pub fn install_stall_hook(scenario: &'static str, seed: u64, index: u64) {
+    *sched::ON_STALL.lock().unwrap_or_else(|e| e.into_inner()) = Some(Box::new(move |lock_addr: usize| {
+        // The lock the thread spins on lives in a block that was freed: a10 is using the
+        // state of an operation after it released it.
+        if let Some((start, size, live)) = alloc::block_of(lock_addr) {
+            if !live {
+                println!(
+                    "{{\"t\":\"viol\",\"prop\":\"C06\",\"sig\":\"op-state-used-after-free:mt\",\"detail\":{},\"scenario\":{},\"seed\":{seed},\"index\":{index},\"trace\":[]}}",
+                    crate::out::jstr(&format!("a thread spins forever on the lock at {lock_addr:#x}, which lies in a block of {size} bytes at {start:#x} that was already deallocated (the quarantine's poison pattern reads as a held lock): the state of an operation was released while a10 still processes it")),
+                    crate::out::jstr(scenario)
+                );
+            }
+        }
+        for v in alloc::take_violations() {
+            let (prop, sig) = match v.kind {
+                alloc::V_FREE_WHILE_HELD => ("C01", format!("free-while-kernel-held:mt:{}", alloc::what::name(v.what))),
+                alloc::V_DOUBLE_FREE => ("C06", "double-free:mt".to_string()),
+                _ => ("C01", "write-after-free:mt".to_string()),
+            };
+            println!(
+                "{{\"t\":\"viol\",\"prop\":{},\"sig\":{},\"detail\":{},\"scenario\":{},\"seed\":{seed},\"index\":{index},\"trace\":[]}}",
+                crate::out::jstr(prop),
+                crate::out::jstr(&sig),
+                crate::out::jstr(&format!("{v:?} (reported when a thread stalled on a lock afterwards)")),
+                crate::out::jstr(scenario)
+            );
+        }
+    }));
+}
+
 // ---------------------------------------------------------------------------
 // C06/C01: futures dropped on one thread while the ring thread consumes their
 // completions.
@@ -855,12 +921,21 @@ pub fn c06_drop_schedule(seed: u64, index: u64, rep: &mut Report, free: bool) {
     let afd: &'static AsyncFd = unsafe { &*afd_ptr };
     let shared = Arc::new(Shared::default());
     let workers_done = Arc::new(AtomicUsize::new(0));
+    // Every third schedule the Ring is dropped while the workers still use their operations:
+    // its final sync-cancel interrupts them, a worker that polls again re-issues the
+    // operation, and the Ring's last kernel entries may still hand that to the kernel.
+    let early_drop = index % 3 == 2;
+    let early_after = 1 + (index / 3) % 4;
     let mut threads: Vec<Box<dyn FnOnce() + Send>> = Vec::new();
     {
         let workers_done = workers_done.clone();
         threads.push(Box::new(move || {
             let mut polls = 0;
             loop {
+                if early_drop && polls >= early_after {
+                    alloc::consumer(|| drop(ring));
+                    return;
+                }
                 sched::point(sched::P_API);
                 let _ = alloc::consumer(|| ring.poll(Some(Duration::ZERO)));
                 polls += 1;
@@ -909,8 +984,14 @@ pub fn c06_drop_schedule(seed: u64, index: u64, rep: &mut Report, free: bool) {
                 for _ in 0..wrng.below(4) {
                     sched::yield_now();
                 }
-                if first.is_pending() && wrng.chance(1, 3) {
-                    let _ = alloc::a10(|| op.poll(&mut cx));
+                if first.is_pending() && (early_drop || wrng.chance(1, 3)) {
+                    let again = alloc::a10(|| op.poll(&mut cx));
+                    if early_drop && again.is_pending() {
+                        for _ in 0..wrng.below(3) {
+                            sched::yield_now();
+                        }
+                        let _ = alloc::a10(|| op.poll(&mut cx));
+                    }
                 }
                 if sched::aborted() {
                     std::mem::forget(op);
@@ -925,12 +1006,14 @@ pub fn c06_drop_schedule(seed: u64, index: u64, rep: &mut Report, free: bool) {
         }));
     }
     let policy = policy_for(&mut rng);
+    install_stall_hook(if free { "c06free" } else { "c06mt" }, seed, index);
     let stats = if free {
         sched::run_free(threads, rng.next());
         free_stats()
     } else {
         sched::run(threads, rng.next(), policy, 200_000)
     };
+    *sched::ON_STALL.lock().unwrap_or_else(|e| e.into_inner()) = None;
     let aborted = sched::aborted();
     if !aborted {
         unsafe { drop(Box::from_raw(afd_ptr)) };
@@ -954,7 +1037,9 @@ pub fn c06_drop_schedule(seed: u64, index: u64, rep: &mut Report, free: bool) {
     } else {
         alloc::end_tracking()
     };
-    if !leaks.is_empty() && !stats.budget_exhausted && index > 0 {
+    // With the Ring dropped early an operation re-issued afterwards can never complete: a10
+    // keeps its state alive for good (which is what C01 asks for), so no leak verdict there.
+    if !leaks.is_empty() && !stats.budget_exhausted && index > 0 && !early_drop {
         shared.violation("C06", "state-leak:mt", format!("{} block(s) allocated inside a10 (sizes {:?}) are still live after every future, the Ring and all handles were dropped: the state of an operation dropped while its completion was being processed on another thread was never reclaimed", leaks.len(), leaks.iter().map(|l| l.size).take(6).collect::<Vec<_>>()));
     }
     alloc::CONSUMER_PHASE_HOLDS.store(true, Ordering::SeqCst);
@@ -964,6 +1049,9 @@ pub fn c06_drop_schedule(seed: u64, index: u64, rep: &mut Report, free: bool) {
         rep.count("schedules_budget_exhausted", 1);
     }
     rep.cell(format!("mt-drop:workers={nworkers}"));
+    if early_drop {
+        rep.cell("mt-drop:ring-dropped-early");
+    }
     let sig = if free { fnv(index, &[nworkers as u8, ops_per as u8, 0xF6]) } else { fnv(stats.trace_hash, &[nworkers as u8, ops_per as u8]) };
     finish(rep, if free { "c06free" } else { "c06mt" }, seed, index, &shared, sig, free || stats.switches >= 2, format!("mt-drop workers={nworkers} ops/worker={ops_per} switches={}", stats.switches));
 }
